@@ -117,6 +117,21 @@ Lemma gen_memo_server_refuted :
     = [REndpoint 1 a; RLookupErr; REndpoint 2 b].
 Proof. vm_compute. split; reflexivity. Qed.
 
+(** Server.endpoint reads the registry by one map index on the name it is
+    given; no scan, no normalisation. *)
+Lemma gen_endpoint_lookup_exact : gen_endpoint_lookup = RegExactIndex.
+Proof. reflexivity. Qed.
+
+(** A folding registry lookup: only "team" is connected, the lookup answers
+    "Team" - the exact table refuses, the folding one dials team's endpoint. *)
+Lemma gen_folding_registry_refuted :
+  let team := [116; 101; 97; 109]%N in let Team := [84; 101; 97; 109]%N in
+  let l := [(team, 1%N)] in
+  let lk := fun _ : bytes => mkLk (Some (mkDest Team false [])) false in
+  decide (fun _ => false) gen_rejected_suffixes (mkCfg true lk false (reg_exact l)) [120]%N = RNotFound Team /\
+  decide (fun _ => false) gen_rejected_suffixes (mkCfg true lk false (reg_folding lower l)) [120]%N = REndpoint 1 Team.
+Proof. vm_compute. split; reflexivity. Qed.
+
 (** A name for which the lookup returns an error - alone, or together with a
     destination - is refused by the emitted Server.dial. *)
 Lemma gen_lookup_error_always_refuses cfg sni :
